@@ -8,22 +8,8 @@ from .. import common, tlc
 
 def tlaps(ctx):
     """Unbounded: RegionTotal, RegionSign (Proofs.tla over Region.tla)."""
-    d = os.path.join(ctx.work, "tlaps")
-    os.makedirs(d, exist_ok=True)
-    for f in ("Proofs.tla", "Region.tla"):
-        shutil.copy(os.path.join(tlc.SPEC_DIR, f), d)
-    try:
-        p = subprocess.run(["tlapm", "--threads", "8", "--cleanfp", "Proofs.tla"], cwd=d, stdout=subprocess.PIPE,
-                           stderr=subprocess.STDOUT, text=True, timeout=600)
-    except (subprocess.TimeoutExpired, FileNotFoundError) as e:
-        ctx.notes.append("tlapm unavailable/timeout: %s" % e)
-        return None
-    import re
-    m = re.search(r"All (\d+) obligations? proved", p.stdout)
-    if m:
-        return int(m.group(1))
-    ctx.notes.append("tlapm did not prove all obligations: " + p.stdout[-300:])
-    return 0
+    from .. import tlaps as tp
+    return tp.prove(ctx, "Proofs", ["Region"])
 
 
 def run(ctx):
